@@ -1,4 +1,5 @@
 import XalanModel.C14.Engine
+import Std.Data.String.ToNat
 /-! Helper lemmas about the engine model (`Engine.lean`) used by `Props/C14.lean`. -/
 namespace XalanModel.C14
 
@@ -42,9 +43,9 @@ theorem nodup_addAttribute (l : List Att) (n : QN) (v : String) (h : (l.map (·.
 
 /-! ### namespace stack -/
 
-theorem Frame.nsForPrefix_cons_self (f : Frame) (p u : String) (h1 : p ≠ "xml") (h2 : p ≠ "xmlns") :
+theorem Frame.nsForPrefix_cons_self (f : Frame) (p u : String) :
     Frame.nsForPrefix (⟨p, u⟩ :: f) p = some u := by
-  simp [Frame.nsForPrefix, h1, h2]
+  simp [Frame.nsForPrefix]
 
 theorem RNS.nsForPrefix_addDeclaration (r : RNS) (p u : String) (hc : r.createNew ≠ [])
     (h1 : p ≠ "xml") (h2 : p ≠ "xmlns") : (r.addDeclaration p u).nsForPrefix p = some u := by
@@ -175,5 +176,101 @@ theorem St.unique_pendName (s : St) : (s.unique).2.pendName = s.pendName := rfl
 theorem St.unique_prefix (s : St) : ∃ j : Nat, (s.unique).1 = "ns" ++ toString j := by
   unfold St.unique
   exact uniqueLoop_ns _ _ _
+
+/-- pigeonhole on lists: a duplicate-free list contained in `D` is no longer than `D` -/
+theorem nodup_subset_length_le : ∀ (cs D : List String), cs.Nodup → (∀ c ∈ cs, c ∈ D) → cs.length ≤ D.length
+  | [], _, _, _ => Nat.zero_le _
+  | c :: cs, D, hn, hs => by
+    have hc : c ∈ D := hs c (by simp)
+    have hn' := List.nodup_cons.mp hn
+    have ih := nodup_subset_length_le cs (D.erase c) hn'.2 (by
+      intro c' hc'
+      have hne : c' ≠ c := fun e => hn'.1 (e ▸ hc')
+      exact (List.mem_erase_of_ne hne).mpr (hs c' (by simp [hc'])))
+    rw [List.length_erase_of_mem hc] at ih
+    have : 0 < D.length := List.length_pos_of_mem hc
+    simp only [List.length_cons]
+    omega
+
+def RNS.declared (r : RNS) : List String := r.frames.flatten.map (·.pfx)
+
+theorem RNS.mem_declared_of_bound (r : RNS) (c u : String) (h : r.nsForPrefix c = some u)
+    (h1 : c ≠ "xml") (h2 : c ≠ "xmlns") : c ∈ r.declared := by
+  unfold RNS.nsForPrefix at h
+  simp only [h1, h2, if_false] at h
+  split at h
+  · cases h
+  · obtain ⟨f, hf, hfu⟩ := List.exists_of_findSome?_eq_some h
+    simp only [Frame.nsForPrefix] at hfu
+    cases hfind : f.find? (fun n => n.pfx = c) with
+    | none => simp [hfind] at hfu
+    | some n =>
+      have hm := List.mem_of_find?_eq_some hfind
+      have hp := List.find?_some hfind
+      simp at hp
+      simp only [RNS.declared, List.mem_map, List.mem_flatten]
+      exact ⟨n, ⟨f, hf, hm⟩, hp⟩
+
+theorem ns_inj (a b : Nat) (h : "ns" ++ toString a = "ns" ++ toString b) : a = b := by
+  have h' : toString a = toString b := by
+    have := congrArg String.toList h
+    simp only [String.toList_append, List.append_cancel_left_eq] at this
+    exact String.toList_inj.mp this
+  exact Nat.repr_injective h'
+
+theorem RNS.declared_length (r : RNS) : r.declared.length = (r.frames.map List.length).sum := by
+  simp only [RNS.declared, List.length_map, List.length_flatten]
+
+private theorem cand_fresh (r : RNS) (k : Nat) (seen : List String) (hn : seen.Nodup)
+    (hs : ∀ c ∈ seen, c ∈ r.declared) (hk : ∀ c ∈ seen, ∃ j : Nat, j < k ∧ c = "ns" ++ toString j)
+    (u : String) (hb : r.nsForPrefix ("ns" ++ toString k) = some u) :
+    (("ns" ++ toString k) :: seen).Nodup ∧ ∀ c ∈ ("ns" ++ toString k) :: seen, c ∈ r.declared := by
+  have hne := ns_prefix_ne (toString k)
+  refine ⟨List.nodup_cons.mpr ⟨?_, hn⟩, ?_⟩
+  · intro hm
+    obtain ⟨j, hj, e⟩ := hk _ hm
+    have := ns_inj _ _ e
+    omega
+  · intro c hc
+    rcases List.mem_cons.mp hc with e | hc
+    · subst e; exact RNS.mem_declared_of_bound r _ u hb hne.1 hne.2.1
+    · exact hs c hc
+
+/-- the loop returns an unbound prefix: `seen` are the (distinct, declared) candidates already rejected -/
+theorem uniqueLoop_unbound (r : RNS) (fuel k : Nat) (seen : List String) (hn : seen.Nodup)
+    (hs : ∀ c ∈ seen, c ∈ r.declared) (hk : ∀ c ∈ seen, ∃ j : Nat, j < k ∧ c = "ns" ++ toString j)
+    (hl : r.declared.length ≤ seen.length + fuel) :
+    r.nsForPrefix (uniqueLoop r fuel k).1 = none := by
+  induction fuel generalizing k seen with
+  | zero =>
+    show r.nsForPrefix ("ns" ++ toString k) = none
+    cases hb : r.nsForPrefix ("ns" ++ toString k) with
+    | none => rfl
+    | some u =>
+      have ⟨h1, h2⟩ := cand_fresh r k seen hn hs hk u hb
+      have := nodup_subset_length_le _ _ h1 h2
+      simp only [List.length_cons] at this
+      omega
+  | succ f ih =>
+    unfold uniqueLoop
+    simp only
+    cases hb : r.nsForPrefix ("ns" ++ toString k) with
+    | none => simpa using hb
+    | some u =>
+      simp only [Option.isSome_some, if_true]
+      have ⟨h1, h2⟩ := cand_fresh r k seen hn hs hk u hb
+      apply ih (k + 1) (("ns" ++ toString k) :: seen) h1 h2
+      · intro c hc
+        rcases List.mem_cons.mp hc with e | hc
+        · exact ⟨k, by omega, e⟩
+        · obtain ⟨j, hj, e⟩ := hk c hc
+          exact ⟨j, by omega, e⟩
+      · simp only [List.length_cons]; omega
+
+theorem St.unique_unbound (s : St) : s.resultNs s.unique.1 = none := by
+  unfold St.unique St.resultNs
+  apply uniqueLoop_unbound s.ns s.declCount s.uniq [] List.nodup_nil (by simp) (by simp)
+  simp [RNS.declared_length, St.declCount]
+
 
 end XalanModel.C14
